@@ -126,7 +126,7 @@ def run_one(ck, prog):
     ck.floor("C02.2", "write-acquiring ops", len(of_kind("write-acquire")), 3)
 
     # ---- C02.3 release only by holders ---------------------------------------------------------
-    drops = {g: [p for p, f in prog.fns.items() if f.get("impl_trait") == "core::ops::Drop" and (f.get("impl_self") or "").startswith(g)] for g in (RG, WG)}
+    drops = {g: [p for p, f in prog.fns.items() if f.get("impl_trait") == "core::ops::drop::Drop" and (f.get("impl_self") or "").startswith(g)] for g in (RG, WG)}
     for g in (RG, WG):
         ck.anchor("C02.3", f"Drop for {g.split('::')[-1]}", drops[g])
     for kind, g in (("read-release", RG), ("write-release", WG)):
@@ -241,7 +241,7 @@ def run_one(ck, prog):
                 tg = target_of(ctx.args(b["id"])[0])
                 if tg and tg[0] == "field" and tg[1] == RW and tg[2] == "data":
                     users.add(p)
-    allowed = {f"{RG}::<'rwlock, T>::new", f"<{WG}<'_, T> as core::ops::Deref>::deref", f"<{WG}<'_, T> as core::ops::DerefMut>::deref_mut",
+    allowed = {f"{RG}::<'rwlock, T>::new", f"<{WG}<'_, T> as core::ops::deref::Deref>::deref", f"<{WG}<'_, T> as core::ops::deref::DerefMut>::deref_mut",
                RW + "::<T>::get_mut", RW + "::<T>::into_inner"}
     for u in sorted(users):
         ck.ob("C02.4", f"data-access|{u}", u in allowed, fn=u, detail="the protected data is reached outside the guards and the exclusive accessors")
@@ -250,7 +250,7 @@ def run_one(ck, prog):
         f = prog.fns.get(nm)
         if f is not None:
             ck.ob("C02.4", f"exclusive-receiver|{nm}", need in f.get("sig", ""), fn=nm, detail=f"sig: {f.get('sig')}")
-    dm = sorted(i["self"].split("<")[0] for i in prog.impls if i.get("trait") == "core::ops::DerefMut" and i["self"].startswith("tiny_std::sync::"))
+    dm = sorted(i["self"].split("<")[0] for i in prog.impls if i.get("trait") == "core::ops::deref::DerefMut" and i["self"].startswith("tiny_std::sync::"))
     ck.ob("C02.4", "DerefMut impls", dm == ["tiny_std::sync::mutex::MutexGuard", WG], detail=f"DerefMut among lock guards must be exactly MutexGuard and RwLockWriteGuard; found {dm}")
     for i in prog.impls:
         if i["self"].startswith(RW + "<") and i.get("trait") == "core::marker::Sync":
